@@ -707,7 +707,8 @@ def run(desc, ctx):
         ob['tx_final'] = len(spec.tx)
         ob['after_close_final'] = list(spec.tx_after_close)
 
-    _, abort, s = harness.sched_case(fn, seed=desc['seed'], policy=desc['sched'], line_p=harness.line_p_for(desc['seed'], 6, 0.15), horizon=5000.0, max_steps=12_000_000)
+    _, abort, s = harness.sched_case(fn, seed=desc['seed'], policy=desc['sched'], line_p=harness.line_p_for(desc['seed'], 6, 0.15), horizon=5000.0, max_steps=12_000_000,
+                                     line_focus=('_check_for_answers', '_cancel_pending_answers', '_no_answer_do_retry'), line_focus_p=0.5)
     ctx.count('mon.statement_level_preemption_points', s.line_points)
     ctx.evals()
     rp = dict(desc)
